@@ -5,6 +5,19 @@ using namespace vg;
 
 static bool gThorough = false;
 
+// The same placed geometry reached through a turned orientation: every movable non-square cell gets its library size swapped
+// and is turned by a quarter (W, E, FW, FE in turn), so that placed size == the base instance's size while library size differs.
+static Spec turnedCopy(Spec s, int k) {
+  static const int quarter[4] = {2, 3, 6, 7};
+  int j = 0;
+  for (auto &c : s.cells) {
+    if (c.fixed || c.w == c.h) continue;
+    std::swap(c.w, c.h);
+    c.orient = quarter[(k + j++) % 4];
+  }
+  return s;
+}
+
 static void enumerateAll(const std::function<void(const Spec &)> &f) {
   std::vector<ParamAlt> menu = gpParamMenu(0);
   int i = 0;
@@ -13,6 +26,9 @@ static void enumerateAll(const std::function<void(const Spec &)> &f) {
     f(s);
     // every fourth instance also with a callback that widens the movable cells at the first upper bound (allowed there)
     if (i % 4 == 2) { Spec rz = s; rz.aux = 2; f(rz); }
+    // every fourth instance also with its movable non-square cells turned by a quarter (placed sizes unchanged), plain and
+    // with the x unit stretched so that the two library dimensions differ by much more than a bin
+    if (i % 4 == 1) { Spec t = turnedCopy(s, i); f(t); f(turnedCopy(scaled(s, 9, 1), i)); }
     // every single parameter deviation on a fixed subset of the base (all of it in thorough)
     bool dev = gThorough ? (i % 4 == 0) : (i % 24 == 0);
     ++i;
@@ -43,6 +59,8 @@ static void enumerateAll(const std::function<void(const Spec &)> &f) {
       f(s);
       // every other one also at (9001, 11003) units per grid step: each cell area stays below 2^31, the total demand does not
       if (k % 2 == 0) f(scaled(s, 9001, 11003));
+      // every third one with the movable cells turned by a quarter (library sizes swapped, same placed geometry)
+      if (k % 3 == 1) { f(turnedCopy(s, k)); f(turnedCopy(scaled(s, 7, 1), k)); }
       if (k++ % 3 == 0) {
         for (int variant = 0; variant < 3; ++variant) {
           Spec d = s;
